@@ -1,4 +1,5 @@
 import PRV.Model.Relay
+import PRV.Gen.C13
 import PRV.Props.C06
 /-
 C13 — Ending a session releases everything; resources stay bounded meanwhile.
@@ -236,5 +237,16 @@ example : sourceReaders (run true [.runStart, .destError, .runExit, .setDest, .r
 
 
 end Relay
+
+/-! ### the order in the source (regenerated from `Scheduler.onDisconnect` on every run) -/
+
+/-- **the session stops being eligible before its tasks are told**: `onDisconnect` raises the disconnecting flag, then walks
+the queue telling every task (`OnDisconnect`, `OnEnd`), then drops the task in service — a contract that reacts to the
+notification by asking for a replacement is never handed the ending session -/
+theorem source_disconnect_flag_first :
+    PRV.Gen.C13.onDisconnectCalls.idxOf "isDisconnecting.Store" < PRV.Gen.C13.onDisconnectCalls.idxOf "tasks.Range" ∧
+    PRV.Gen.C13.onDisconnectCalls.idxOf "tasks.Range" < PRV.Gen.C13.onDisconnectCalls.idxOf "tasks.UnlockAndRemove" ∧
+    "tasks.UnlockAndRemove" ∈ PRV.Gen.C13.onDisconnectCalls ∧
+    "OnDisconnect" ∈ PRV.Gen.C13.onDisconnectNotifies ∧ "OnEnd" ∈ PRV.Gen.C13.onDisconnectNotifies := by decide
 
 end PRV.Props.C13
